@@ -535,6 +535,16 @@ def rule_facts_first(em, rep, rid):
         rep.violation(rid, q.qname + ':match_dynamic', 'query() does not enumerate the dynamic facts', q.loc())
         return
     dom = cfg.g.dominators(cfg.entry)
+    # the facts of every name are enumerated: no path ends query() (returns or falls off) without having passed the
+    # enumeration - a test on the name in front of it (reserved names, "is it defined") would hide dynamic facts
+    skip = cfg.g.find_path(cfg.entry, lambda m: m.kind == 'return' or (m.kind == 'exit' and m.info in ('fall', 'return')),
+                           avoid=lambda m: m in dyn, edge_ok=lambda lbl, a, b: lbl not in ('exc', 'throw', 'close'))
+    if skip is not None:
+        rep.violation(rid, q.qname + ':match_dynamic:always', 'query() can finish without having enumerated the dynamic facts: for some '
+                      'names (those a test in front of the enumeration excludes) asserted facts are stored and retracted but never '
+                      'found by a call', q.loc(dyn[0].stmt), cfg.describe_path(skip))
+    else:
+        rep.ok(rid, q.qname + ':match_dynamic:always', 'every finishing path has enumerated the dynamic facts', q.loc(dyn[0].stmt))
     for c in calls:
         key = '%s:%s' % (q.qname, norm(c.ast))
         if any(d in dom[c] for d in dyn):
